@@ -71,6 +71,8 @@ func runC19(s *Sim) {
 		if badInitial {
 			s.Stat("c19.bad-initial-rejected") // rejecting the configuration is one of the two accepted answers
 			s.Nontrivial()
+			s.stopTasks()
+			s.Wait()
 			return
 		}
 		s.HarnessError("multi.NewTransport: %v", mk.Err)
